@@ -41,7 +41,16 @@ func (h *nopMultiDB) CreateDatabase(ctx context.Context, db string, ifNotExists 
 }
 func (h *nopMultiDB) UseDatabase(ctx context.Context, db string) error { return sql.ErrNoSupported }
 func (h *nopMultiDB) GetLoggedUser(ctx context.Context) (sql.User, error) {
-	return nil, sql.ErrNoSupported
+	return simSysAdmin{}, nil
+}
+
+// simSysAdmin: the user on whose behalf the harness runs SQL through pkg/database.
+type simSysAdmin struct{}
+
+func (simSysAdmin) Username() string           { return "immudb" }
+func (simSysAdmin) Permission() sql.Permission { return sql.PermissionSysAdmin }
+func (simSysAdmin) SQLPrivileges() []sql.SQLPrivilege {
+	return []sql.SQLPrivilege{sql.SQLPrivilegeSelect, sql.SQLPrivilegeCreate, sql.SQLPrivilegeInsert, sql.SQLPrivilegeUpdate, sql.SQLPrivilegeDelete, sql.SQLPrivilegeDrop, sql.SQLPrivilegeAlter}
 }
 func (h *nopMultiDB) ListUsers(ctx context.Context) ([]sql.User, error) {
 	return nil, sql.ErrNoSupported
